@@ -165,8 +165,9 @@ def _gen(ctx):
     rng = ctx.rng
     # large tables, target a few entries away: "reached" means reached, not close to
     for (k, r) in ([(4, 4)] if ctx.tier == "quick" else [(4, 4), (2, 9), (12, 2)]):
-        for d in (3, -2):
-            yield dict(kind="walk", k=k, r=r, q=rng.randrange(k), sq=0, iso=0, lam=32, target="near:%d" % d, seed=rng.randrange(10 ** 6), big=1)
+        total = k ** (2 * r + 1)
+        for d in ((1, -1) if total < 400000 else (1, -1, 3, -2)):      # one entry of 2^18 is 3.8e-6, of 2^19 1.9e-6
+            yield dict(kind="walk", k=k, r=r, q=rng.randrange(k), sq=0, iso=0, lam=48, target="near:%d" % d, seed=rng.randrange(10 ** 6), big=1)
     for _ in range(ctx.n(500, 5000)):
         k = rng.choice([2, 2, 3, 3, 4, 5])
         r = rng.choice([0, 1, 1, 2]) if k <= 3 else rng.choice([0, 1, 1, 2 if k == 4 else 1])
